@@ -267,6 +267,15 @@ func (ms *MatrixSetup) UnmarshalOrdered(o any) error {
 		if err := ordered.Unmarshal(src, (*map[string][]string)(ms)); err != nil {
 			return err
 		}
+		// A dimension given as null has no values, the same as one given as an
+		// empty list. Keep one representation, so that the step marshals (and
+		// signs) the same before and after a round trip through YAML, which
+		// writes both as [].
+		for name, values := range *ms {
+			if values == nil {
+				(*ms)[name] = []string{}
+			}
+		}
 
 	default:
 		return fmt.Errorf("unsupported src type for MatrixSetup: %T", o)
